@@ -261,7 +261,9 @@ def _create_syntax_error_code(builder, input_text, err):
   output_offset = output_ln.line_to_offset(err.lineno, err.offset - 1 if err.offset else 0)
   input_offset = builder.map_back_offset(output_offset)
   line, col = input_ln.offset_to_line(input_offset)
-  input_text_line = input_text.splitlines()[line - 1]
+  # The error may be reported at the very end of the text, past the last line splitlines() gives.
+  input_lines = input_text.splitlines()
+  input_text_line = input_lines[line - 1] if line <= len(input_lines) else ''
 
   message = err.args[0]
   err_type = type(err)
